@@ -50,6 +50,9 @@ def observe(spec, inputs):
         m0 = plspec.build(n, spec["model"], env)
         out["snap"] = C.snapshot(n, m0)
         m1 = plspec.build(n, spec["model"], env)
+        stage = "packing sibling objects first"
+        for sb in spec.get("before", []):
+            plspec.build(n, sb, env).to_b64()
         stage = "queries before packing"
         if spec.get("warm"):
             C.warm(m1)
